@@ -215,8 +215,9 @@ func (x *Exec) mapGetVal(st *State, ms mapShape, ref, k Term) Value {
 		b := comp("#b", SInt)
 		x.notFutureRef(b)
 		sv := VSlice{Backing{Heap: true, Ref: b}, comp("#o", SInt), comp("#l", SInt), comp("#c", SInt)}
-		if !strings.Contains(sv.Len.S, "!q") {
-			x.fact("slice:"+sv.Len.S, And(Ge(sv.Off, IntLit(0)), Ge(sv.Len, IntLit(0)), Le(sv.Len, sv.Cap), Le(sv.Cap, BigLit(pow2(48)))))
+		if k := "slice:" + sv.Len.S + "|" + st.pc.S; !x.vc.declared[k] && !strings.Contains(sv.Len.S, "!q") {
+			x.vc.declared[k] = true
+			x.assume(st, And(Ge(sv.Off, IntLit(0)), Ge(sv.Len, IntLit(0)), Le(sv.Len, sv.Cap), Le(sv.Cap, BigLit(pow2(48)))))
 		}
 		return sv
 	case KIface:
